@@ -25,6 +25,34 @@ def _default_factory_value(node):
     return node
 
 
+def _keeps_column_order(e):
+    """(ok, why): e denotes columns of `df` in the frame's own order: df.columns, a slice of it, an order-preserving
+    selection (Index.difference(.., sort=False), Index.drop, Index.intersection, a comprehension over df.columns)."""
+    t = canon(e)
+    if t == "df.columns":
+        return True, ""
+    if isinstance(e, ast.Subscript) and isinstance(e.slice, ast.Slice) and (e.slice.step is None):
+        return _keeps_column_order(e.value)
+    if isinstance(e, ast.Call) and isinstance(e.func, ast.Attribute):
+        a = e.func.attr
+        if a == "difference":
+            srt = next((k.value for k in e.keywords if k.arg == "sort"), e.args[1] if len(e.args) > 1 else None)
+            if isinstance(srt, ast.Constant) and srt.value is False:
+                return _keeps_column_order(e.func.value)
+            return False, f"`{src(e)[:60]}`: pandas.Index.difference sorts its result unless sort=False - the fields come out in alphabetical, not in the frame's, order"
+        if a in ("drop", "intersection", "copy", "tolist", "to_list"):
+            srt = next((k.value for k in e.keywords if k.arg == "sort"), None)
+            if srt is not None and not (isinstance(srt, ast.Constant) and srt.value is False):
+                return False, f"`{src(e)[:60]}` sorts the columns"
+            return _keeps_column_order(e.func.value)
+        return False, f"`{src(e)[:60]}`: not a recognised order-preserving selection of the columns"
+    if isinstance(e, ast.Call) and isinstance(e.func, ast.Name) and e.func.id in ("list", "tuple") and len(e.args) == 1:
+        return _keeps_column_order(e.args[0])
+    if isinstance(e, ast.ListComp) and len(e.generators) == 1 and isinstance(e.elt, ast.Name) and isinstance(e.generators[0].target, ast.Name) and e.elt.id == e.generators[0].target.id:
+        return _keeps_column_order(e.generators[0].iter)
+    return False, f"`{src(e)[:60]}`: not a recognised order-preserving selection of the columns"
+
+
 def run(ctx):
     prog = ctx.prog
     c = prog.cls(CFG)
@@ -220,6 +248,7 @@ def run(ctx):
         ctx.ob("R-SIB", "C18.4", f, "single-point constructor builds its dtype with get_dtype(<caller's names>) and appends the non-sampling defaults after the parameters", ok and n_c >= 2, detail)
     df = ctx.fn(LP + ":dataframe_to_live_points")
     okdf, n_df = True, 0
+    why_df = ""
     for pa_ in [x_ for x_ in _summ184(df.node) if x_.end == "return"]:
         for c_ in _array_calls(pa_.ret):
             n_df += 1
@@ -227,10 +256,29 @@ def run(ctx):
             fl_ = next((k_.value for k_ in dtc.keywords if k_.arg == "non_sampling_parameters"), None) if isinstance(dtc, ast.Call) else None
             fv_ = _flag(pa_, canon(fl_)) if fl_ is not None else None
             r0 = c_.args[0] if c_.args else None
-            rows_t = r0 is not None and match_expr(f"[tuple($$r) + {DEF_} for $$r in df.values]", r0) is not None
-            rows_f = r0 is not None and any(match_expr(pt_, r0) is not None for pt_ in ("[tuple($$r) + tuple() for $$r in df.values]", "[tuple($$r) + () for $$r in df.values]", "[tuple($$r) for $$r in df.values]"))
-            okdf = okdf and isinstance(dtc, ast.Call) and canon(dtc.func) == "get_dtype" and dtc.args and canon(dtc.args[0]) == "list(df.columns)" and ((fv_ is True and rows_t) or (fv_ is False and rows_f))
-    ctx.ob("R-SIB", "C18.4", df, "data-frame rows become tuple(row) + defaults with dtype get_dtype(list(df.dtypes.index))", okdf and n_df >= 2, "")
+            # rows: [tuple(r) + defaults for r in ROWS] with ROWS = df.values (all columns) or df[NAMES].values; the dtype is
+            # built from list(NAMES) for the same NAMES, and NAMES keeps the frame's own column order
+            rows_t = rows_f = False
+            names_ = None
+            if r0 is not None:
+                for pt_, kind_ in ((f"[tuple($$r) + {DEF_} for $$r in $rows]", "t"), ("[tuple($$r) + tuple() for $$r in $rows]", "f"), ("[tuple($$r) + () for $$r in $rows]", "f"), ("[tuple($$r) for $$r in $rows]", "f")):
+                    b_ = match_expr(pt_, r0)
+                    if b_ is None:
+                        continue
+                    rows_e = b_["rows"]
+                    if canon(rows_e) in ("df.values", "df.to_numpy()"):
+                        names_ = ast.parse("df.columns", mode="eval").body
+                    else:
+                        bb_ = match_expr("df[$n].values", rows_e) or match_expr("df[$n].to_numpy()", rows_e)
+                        names_ = bb_["n"] if bb_ else None
+                    if names_ is not None:
+                        rows_t, rows_f = kind_ == "t", kind_ == "f"
+                    break
+            okn_, whyn_ = (False, "rows not recognised") if names_ is None else _keeps_column_order(names_)
+            if not okn_:
+                why_df = whyn_
+            okdf = okdf and okn_ and isinstance(dtc, ast.Call) and canon(dtc.func) == "get_dtype" and dtc.args and canon(dtc.args[0]) in (f"list({canon(names_)})", canon(names_) if isinstance(names_, ast.List) else "") and ((fv_ is True and rows_t) or (fv_ is False and rows_f))
+    ctx.ob("R-SIB", "C18.4", df, "data-frame rows become tuple(row) + defaults with dtype get_dtype(list(<the same columns, in the frame's order>))", okdf and n_df >= 2, why_df)
     # live_points_to_dict hands back one *array* per name - of length 1 for a single point - so the way back must send
     # every sequence, of any length, down the array path; the tuple path is for scalars only.  Its guard must therefore
     # be "the values have no __len__", not "N == 1" (a tuple of length-1 arrays is not a valid row for np.array)
